@@ -328,6 +328,39 @@ func hllCase(c *Ctx, m uint64, redis bool) {
 		}
 		c.branch("merge-chain")
 	}
+	// no sharing: two EMPTY receivers merge the same source; afterwards each of the three is
+	// updated on its own and none of the others may move
+	{
+		src, _ := newHLL(m, redis)
+		for _, j := range stream[:cut] {
+			src.Update(pool[j])
+		}
+		r1, _ := newHLL(m, redis)
+		r2, _ := newHLL(m, redis)
+		r1.Merge(src)
+		r2.Merge(src)
+		s0, _ := hllRegs(src)
+		fresh := pool[c.rng.Intn(len(pool))]
+		r1.Update(fresh)
+		for _, j := range stream[cut:] {
+			r1.Update(pool[j])
+		}
+		a2, _ := hllRegs(r2)
+		as, _ := hllRegs(src)
+		if !eqU64(a2, s0) || !eqU64(as, s0) {
+			c.fail([]string{"C06", "C08"}, "hll-merge-shares-storage", fmt.Sprintf("%s: updating one sketch that merged a source changed the source or another sketch that merged the same source", cfg), replay)
+			return
+		}
+		for _, j := range stream[cut:] {
+			src.Update(pool[j])
+		}
+		a2b, _ := hllRegs(r2)
+		if !eqU64(a2b, s0) {
+			c.fail([]string{"C06", "C08"}, "hll-merge-shares-storage", fmt.Sprintf("%s: updating the source after a merge changed the sketch that had merged it", cfg), replay)
+			return
+		}
+		c.branch("merge-no-sharing")
+	}
 	// idempotent: merging Y again, and merging a sketch with itself, change nothing
 	X.Merge(Y)
 	X.Merge(X)
@@ -379,13 +412,20 @@ func hllMismatch(c *Ctx) {
 				continue
 			}
 			c.rep.Cases++
-			A.Update([]byte("x"))
-			B.Update([]byte("y"))
+			// receiver / argument empty or not: a rejected merge never depends on the contents
+			fillA, fillB := c.rng.Intn(2) == 0, c.rng.Intn(3) != 0
+			if fillA {
+				A.Update([]byte("x"))
+			}
+			if fillB {
+				B.Update([]byte("y"))
+				B.Update([]byte("z"))
+			}
 			ra, _ := hllRegs(A)
 			rb, _ := hllRegs(B)
 			var merr error
 			res := safely(func() { merr = A.Merge(B) })
-			cfg := fmt.Sprintf("hll-mismatch(%v,redis=%v)", mm, redis)
+			cfg := fmt.Sprintf("hll-mismatch(%v,redis=%v,receiver-empty=%v,argument-empty=%v)", mm, redis, !fillA, !fillB)
 			if res.panicked {
 				c.fail([]string{"C06"}, "hll-mismatch-panic", cfg+": "+res.panicVal, cfg)
 				continue
